@@ -33,8 +33,9 @@ def main():
         sys.argv = ["dsl_compiler"] + args
         runpy.run_module("dsl_compiler", run_name="__main__", alter_sys=True)
     elif entry == "compile":
-        sys.argv = ["/repo/compile.py"] + args
-        runpy.run_path("/repo/compile.py", run_name="__main__")
+        from vf import REPO
+        sys.argv = [REPO + "/compile.py"] + args
+        runpy.run_path(REPO + "/compile.py", run_name="__main__")
     elif entry == "factompile":
         sys.argv = ["factompile"] + args
         from dsl_compiler.cli import main as cli_main
